@@ -44,7 +44,7 @@ class ZWorld(C01):
     id = "C11"
     props_file = "Props/C11.v"
     props_module = "Props.C11"
-    counts = {"quick": 500, "thorough": 10000}
+    counts = {"quick": 300, "thorough": 10000}
     rule = ("behaviour, flow reject: C01 histories (one rule per resource: default / reused / private window) with "
             "equal-rule reloads inserted; compared with the model and the C01 predicate of the history without reloads")
 
@@ -78,7 +78,7 @@ class ZHot(C06):
                    "Definition spec_hot_all (co : hcase * list Z) : bool := spec_c06 co && spec_c05h co && spec_c07_hot co.")
     agree_fn = "RunHot.agree"
     spec_fn = "spec_hot_all"
-    counts = {"quick": 500, "thorough": 10000}
+    counts = {"quick": 300, "thorough": 10000}
     rule = ("behaviour, hotspot: C05/C06/C07 histories with one rule (concurrency, QPS reject or QPS throttling) and "
             "equal-rule reloads inserted; compared with the model and the Specs of the history without reloads")
 
@@ -105,7 +105,7 @@ class ZCb(C03):
     id = "C11"
     props_file = "Props/C11.v"
     props_module = "Props.C11"
-    counts = {"quick": 500, "thorough": 10000}
+    counts = {"quick": 300, "thorough": 10000}
     rule = ("behaviour, circuit breaker: C03 histories with one breaker and equal-rule reloads inserted (also while "
             "Open and Half-Open); compared with the model and the C03 state machine of the history without reloads")
 
@@ -135,7 +135,7 @@ class ZThr(C07Flow):
     id = "C11"
     props_file = "Props/C11.v"
     props_module = "Props.C11"
-    counts = {"quick": 300, "thorough": 6000}
+    counts = {"quick": 150, "thorough": 6000}
     rule = ("behaviour, flow throttling: C07 histories with one rule and equal-rule reloads inserted (with queued "
             "slots); compared with the model and the pacer of the history without reloads")
 
@@ -168,7 +168,7 @@ class C11Id(PropBase):
     case_type = "icase"
     agree_fn = "agree11"
     spec_fn = "spec_c11"
-    counts = {"quick": 800, "thorough": 16000}
+    counts = {"quick": 500, "thorough": 16000}
     rule = ("identity: flow / hotspot / circuit-breaker managers, pools of valid, invalid and duplicate rules over 2-3 "
             "resources, sequences of load-all / load-for-resource / append / clear with the identities of every "
             "resource's controllers observed after each; the C11 identity predicate is evaluated on the "
@@ -262,4 +262,53 @@ class C11Id(PropBase):
 
 class C11(C11Id):
     def parts(self):
-        return [C11Id(), ZWorld(), ZHot(), ZCb(), ZThr()]
+        return [C11Id(), ZWorld(), ZHot(), ZCb(), ZThr(), RuleEq()]
+
+
+class RuleEq(PropBase):
+    """Rule equality and statistic reuse, field by field: the managers' notion of 'unchanged rule' and of
+    'changed rule' is the rules' PartialEq; a field that is compared must make a changed rule unequal."""
+    id = "C11"
+    harness = "req"
+    props_file = "Props/C11.v"
+    props_module = "Props.C11"
+    coq_imports = ("From SV Require Import Model.Base Model.F64 Model.Rules Run.Common Run.RunC12.\n"
+                   "Open Scope N_scope.")
+    case_type = "rule_pair"
+    agree_fn = "agree_pair"
+    spec_fn = "agree_pair"
+    counts = {"quick": 800, "thorough": 30000}
+    rule = ("rule equality: pairs of rules of one family that differ in exactly one field (every field of every "
+            "family in turn, incl. override maps) or in nothing but the id; PartialEq and is_stat_reusable of the "
+            "implementation compared with the model's field tables (Model/Rules.v)")
+    assumptions = []
+    trusted_extra = []
+
+    def gen(self, rng, n, tier):
+        from props.rulegen import gen_rule, mutate
+        cases = []
+        for _ in range(n):
+            a = gen_rule(rng, rng.pick([0, 0, 1, 1, 2, 3, 4]))
+            cases.append({"a": a, "b": mutate(rng, a)})
+        return cases
+
+    def corpus(self):
+        return []
+
+    def line(self, c):
+        return " ".join(str(x) for x in ["q"] + c["a"]["toks"] + c["b"]["toks"])
+
+    def coq(self, c):
+        from props.rulegen import coq_full
+        k = ["PFlow", "PHot", "PCb", "PIso", "PSys"][c["a"]["family"]]
+        return "%s (%s) (%s)" % (k, coq_full(c["a"]), coq_full(c["b"]))
+
+    def nontrivial(self, c, obs):
+        return c["b"].get("changed") is not None
+
+    def stats(self, cases, obs):
+        st = {}
+        for c in cases:
+            k = "%d:%s" % (c["a"]["family"], c["b"].get("changed"))
+            st[k] = st.get(k, 0) + 1
+        return {"pairs_by_family_and_changed_field": st}
